@@ -12,6 +12,8 @@ URI = "file:///verif/x.spl"
 DOC = "proc main() {\n    var cnt: int;\n    cnt := 1;\n    printi(cnt);\n}\n"
 
 # a document whose analysis takes seconds (debug build): requests pipelined behind it wait for the broker
+CORNER_TEXTS = ["proc main() {}\n// €", "//ä", "", "\r", "é", "proc main() {}\r", "\ufeffproc main() {}", "proc main() {\n  x := '€';\n}\n// 😀",
+                "type t = array [2] of int;\r\nproc p(ref a: t) { a[0] := 1; }\r\n// ende é"]
 BIG_DOC = "".join("proc p%d(a: int) {\n  var x: int;\n  x := a + %d;\n  printi(x);\n}\n" % (i, i) for i in range(8000)) + "proc main() { }\n"
 
 INIT_PARAMS = {"capabilities": {}}
@@ -104,6 +106,27 @@ def letter_message(letter, next_id, rng):
         return lc.notification("textDocument/didClose", {"textDocument": {"uri": URI}}), "N:textDocument/didClose"
     if letter == "B":
         return lc.notification("textDocument/didOpen", {"textDocument": {"uri": URI, "languageId": "spl", "version": 1, "text": BIG_DOC}}), "N:textDocument/didOpen"
+    if letter == "E":
+        # corner documents: non-ASCII last character without a final terminator, lone CR, empty, BOM
+        text = CORNER_TEXTS[rng.randrange(len(CORNER_TEXTS))]
+        return lc.notification("textDocument/didOpen", {"textDocument": {"uri": URI, "languageId": "spl", "version": 1, "text": text}}), "N:textDocument/didOpen"
+    if letter == "G":
+        # edits at and past the end of the document, at its start, of everything, and several in one notification
+        def pos(l, c):
+            return {"line": l, "character": c}
+        pool = [
+            [{"range": {"start": pos(99999, 0), "end": pos(99999, 0)}, "text": " x"}],
+            [{"range": {"start": pos(0, 99999), "end": pos(0, 99999)}, "text": "é"}],
+            [{"range": {"start": pos(1, 99999), "end": pos(99999, 99999)}, "text": "\n// €"}],
+            [{"range": {"start": pos(0, 0), "end": pos(0, 0)}, "text": "// 😀\r"}],
+            [{"range": {"start": pos(0, 0), "end": pos(99999, 0)}, "text": ""}],
+            [{"text": CORNER_TEXTS[rng.randrange(len(CORNER_TEXTS))]}],
+            [{"range": {"start": pos(99999, 0), "end": pos(99999, 0)}, "text": "ä"}, {"range": {"start": pos(99999, 0), "end": pos(99999, 0)}, "text": "€"},
+             {"range": {"start": pos(0, 1), "end": pos(0, 2)}, "text": ""}],
+        ]
+        # (a range whose end lies before its start is not a client edit: C08's `batch_sync` leaves it undefined)
+        return lc.notification("textDocument/didChange", {"textDocument": {"uri": URI, "version": next_id + 1},
+                                                         "contentChanges": pool[rng.randrange(len(pool))]}), "N:textDocument/didChange"
     if letter == "N":
         m = UNKNOWN_NOTE[rng.randrange(len(UNKNOWN_NOTE))]
         return lc.notification(m, {}), f"N:{m}"
@@ -162,6 +185,9 @@ def c18_cases(run):
     seqs += ["IJBqqqSX", "IJBqDqUqSX"]
     # requests on a closed document (and on documents never opened: part of the request pool)
     seqs += ["IJDQC" + "Q" * 25 + "SX", "IJDCDQC" + "Q" * 25 + "SX", "IJC" + "Q" * 25 + "SX"]
+    # corner documents and edits at / past their end, at their start, of everything; requests in between
+    for _ in range(60 if thorough else 16):
+        seqs.append("IJ" + "".join(rng.choice("EGGQq") for _ in range(rng.randrange(3, 9))) + "QSX")
     sessions = [build_session(s, rng) for s in seqs]
     violations = []
 
